@@ -69,6 +69,16 @@ class GhostPath:
     def cwd(cls):
         raise NotImplementedError("evaluated through its handler")
 
+    # file-system queries: the state of the file system is unknown to the contract - each query is a fresh Boolean
+    def is_file(self):
+        raise NotImplementedError("evaluated through its handler")
+
+    def exists(self):
+        raise NotImplementedError("evaluated through its handler")
+
+    def is_dir(self):
+        raise NotImplementedError("evaluated through its handler")
+
 
 def _ghost_cwd(st):
     cur = st.heap.get(("glob", "cwd"))
@@ -89,7 +99,15 @@ def _h_cwd(ex, st, recv, args, kwargs, node):
     return _ghost_cwd(st)
 
 
+def _h_fs_query(ex, st, recv, args, kwargs, node):
+    from pyvc.values import fresh_name
+    return z3.Bool(fresh_name("cli.fs_query"))
+
+
 GhostPath.absolute._pyvc_intrinsic = _h_absolute
+GhostPath.is_file._pyvc_intrinsic = _h_fs_query
+GhostPath.exists._pyvc_intrinsic = _h_fs_query
+GhostPath.is_dir._pyvc_intrinsic = _h_fs_query
 GhostPath.cwd.__func__._pyvc_intrinsic = _h_cwd
 ENTRY_CWD = GhostPath.term("cwd", "entry")
 
@@ -130,6 +148,14 @@ class cli_tail(Contract):
         ns.stash_cwd = Opaque("cwd@entry")
         ns.stash_sys_argv = Opaque("sys.argv@entry")
         ns.__file__ = path
+        # module-level names the DROPPED prefix assigns and the extracted statements may read: an unknown path when the
+        # prefix builds one with Path(...), an opaque value otherwise (never a NameError the real module cannot have)
+        for stmt in tree.body[:start]:
+            if isinstance(stmt, ast.Assign):
+                for t in stmt.targets:
+                    if isinstance(t, ast.Name) and not hasattr(ns, t.id):
+                        is_path = isinstance(stmt.value, ast.Call) and "Path" in ast.unparse(stmt.value.func)
+                        setattr(ns, t.id, GhostPath.term("prefix", t.id) if is_path else Opaque(f"prefix:{t.id}"))
         self.bind_names(ns)
         return fn, ns
 
@@ -150,14 +176,27 @@ class cli_tail(Contract):
                    for l in src]
             open(os.path.join(d, "abort.txt"), "w").write("\n".join(bad) + "\n")
             env = dict(os.environ, PYTHONPATH=repo_src)
-            p = subprocess.run([sys.executable if "venv" in sys.executable else "/venv/bin/python", "-m", "geophires_x",
-                                "abort.txt", "abort.out"], cwd=d, env=env, capture_output=True, text=True, timeout=600)
-            wrote = os.path.exists(os.path.join(d, "abort.out"))
-            failing = p.returncode == 0 and not wrote
+            py = sys.executable if "venv" in sys.executable else "/venv/bin/python"
+            # twice: into a fresh path, and with a report left over from an earlier run at the requested path (the file
+            # system state is not constrained by the statement: a failed run exits non-zero either way)
+            seen = []
+            for label, stale in (("fresh output path", False), ("a report from an earlier run exists at the output path", True)):
+                out_path = os.path.join(d, "abort.out")
+                if os.path.exists(out_path):
+                    os.unlink(out_path)
+                if stale:
+                    open(out_path, "w").write("stale report of an earlier run\n")
+                p = subprocess.run([py, "-m", "geophires_x", "abort.txt", "abort.out"], cwd=d, env=env,
+                                   capture_output=True, text=True, timeout=600)
+                wrote = os.path.exists(out_path) and open(out_path).read() != "stale report of an earlier run\n"
+                seen.append((label, p.returncode, wrote, (p.stdout.strip().splitlines() or [''])[-1][:160]))
+            bad = [x for x in seen if x[1] == 0 and not x[2]]
+            failing = bool(bad)
+            shown = bad[0] if bad else seen[0]
             return {"inputs": {"command": "python -m geophires_x abort.txt abort.out",
-                               "abort.txt": "tests/examples/example5.txt with 'Reservoir Output File Name, /nonexistent/reservoir.txt'"},
-                    "observed": f"exit status {p.returncode}, report written: {wrote}; last output line: "
-                                f"{(p.stdout.strip().splitlines() or [''])[-1][:160]}",
+                               "abort.txt": "tests/examples/example5.txt with 'Reservoir Output File Name, /nonexistent/reservoir.txt'",
+                               "file system": shown[0]},
+                    "observed": f"exit status {shown[1]}, report written: {shown[2]}; last output line: {shown[3]}",
                     "confirmed": failing,
                     "note": "a simulation that aborts must end in a non-zero exit status" if failing else
                             "the aborting simulation ends in a non-zero status on this tree: not reproduced"}
